@@ -17,8 +17,8 @@ fail() { echo "BUILD-FAILED: $1 (see $LOG)"; grep -E "error|Error" -A4 "$LOG" | 
 if [ ! -f "$B/libpikasim.so" ] || [ "$V/sim/sim.cpp" -nt "$B/libpikasim.so" ] || [ "$V/sim/sim.h" -nt "$B/libpikasim.so" ] || [ "$V/sim/mpi_stub.cpp" -nt "$B/libpikasim.so" ]; then
   SRCS="$V/sim/sim.cpp"
   [ -f "$V/sim/mpi_stub.cpp" ] && SRCS="$SRCS $V/sim/mpi_stub.cpp"
-  g++ -std=c++17 -O2 -g -fPIC -shared -mcx16 -fvisibility=hidden -Wall -I/usr/lib/x86_64-linux-gnu/openmpi/include \
-      -o "$B/libpikasim.so.tmp" $SRCS -ldl >>"$LOG" 2>&1 || fail "libpikasim"
+  g++ -std=c++17 -O2 -g -fPIC -shared -mcx16 -fvisibility=hidden -Wall -DOMPI_SKIP_MPICXX=1 -I/usr/lib/x86_64-linux-gnu/openmpi/include \
+      -o "$B/libpikasim.so.tmp" $SRCS -ldl -lmpi >>"$LOG" 2>&1 || fail "libpikasim"
   mv "$B/libpikasim.so.tmp" "$B/libpikasim.so"
 fi
 
